@@ -339,3 +339,34 @@ Proof. reflexivity. Qed.
 Example ex_update_creates :
   session {| file := None; env := Some [49] |} (Some [49]) [97] = ({| file := Some [97]; env := Some [49] |}, SAsserted Pass).
 Proof. reflexivity. Qed.
+
+(* ---- the rest of the directory ---- *)
+Lemma dir_new_others : forall d, others (fst (dir_new d)) = others d.
+Proof. intros d. unfold dir_new. destruct (golden_new (dw d)). reflexivity. Qed.
+
+Lemma dir_assert_others : forall d g got, others (fst (dir_assert d g got)) = others d.
+Proof. intros d g got. unfold dir_assert. destruct (golden_assert (dw d) g got). reflexivity. Qed.
+
+Lemma dir_session_others : forall d e got, others (fst (dir_session d e got)) = others d.
+Proof. intros d e got. unfold dir_session. destruct (session (dw d) e got). reflexivity. Qed.
+
+Lemma dir_session_path : forall d e got,
+  dw (fst (dir_session d e got)) = fst (session (dw d) e got) /\
+  snd (dir_session d e got) = snd (session (dw d) e got).
+Proof. intros d e got. unfold dir_session. destruct (session (dw d) e got). split; reflexivity. Qed.
+
+Lemma dir_untouched_all : forall d e got g,
+  others (fst (dir_new d)) = others d /\
+  others (fst (dir_assert d g got)) = others d /\
+  others (fst (dir_session d e got)) = others d /\
+  dw (fst (dir_session d e got)) = fst (session (dw d) e got) /\
+  snd (dir_session d e got) = snd (session (dw d) e got).
+Proof.
+  intros d e got g. split; [apply dir_new_others|]. split; [apply dir_assert_others|].
+  split; [apply dir_session_others|]. apply dir_session_path.
+Qed.
+
+Example dir_session_keeps_actual :
+  dir_session {| dw := {| file := Some [97]; env := None |}; others := [([120], [121])] |} None [98]
+  = ({| dw := {| file := Some [97]; env := None |}; others := [([120], [121])] |}, SAsserted AssertPanic).
+Proof. reflexivity. Qed.
